@@ -30,13 +30,14 @@ FLAVOURS = ['NETCDF3_CLASSIC', 'NETCDF3_64BIT_OFFSET', 'NETCDF4_CLASSIC', 'NETCD
 DTS = {'NETCDF3_CLASSIC': ['f', 'd', 'i', 'h', 'b', 'c'], 'NETCDF3_64BIT_OFFSET': ['f', 'd', 'i', 'h', 'b', 'c'],
        'NETCDF4_CLASSIC': ['f', 'd', 'i', 'h', 'b', 'c'],
        'NETCDF4': ['f', 'd', 'i', 'h', 'b', 'c', 'q', 'B', 'H', 'I', 'Q']}
-VATTRS = {'units': 'ppb', 'long_name': 'x y', 'gain': 1.5, 'vrange': [0.5, 5.0], 'flag': ('i4', 3), 'count': 7}
+VATTRS = {'units': 'ppb', 'long_name': 'x y', 'gain': 1.5, 'vrange': [0.5, 5.0], 'flag': ('i4', 3), 'count': 7,
+          'small': ('i2', 12), 'tiny': ('i1', -3), 'ratio': ('f4', 0.25)}
 GATTRS = {'title': 'hello world', 'version': ('f4', 1.25), 'levels': ('i4', [1, 2, 3]), 'n': 5, '_private': 'x',
-          'big': ('i8', 2 ** 40)}
+          'big': ('i8', 2 ** 40), 'shorts': ('i2', [1, 2]), 'half': ('f4', 0.5)}
 
 
 def gen(rng, tier):
-    n = 120 if tier == 'quick' else 3000
+    n = 160 if tier == 'quick' else 3000
     out = []
     for _ in range(n):
         fl = rng.choice(FLAVOURS)
@@ -132,8 +133,13 @@ def _tok(x):
     a = np.asarray(x)
     if a.dtype.kind in 'SU' or isinstance(x, str):
         return 's.' + str(x).encode().hex()
-    kind = 'f' if a.dtype.kind == 'f' else 'i'
-    return kind + '.' + '_'.join(lib.show_rat(Fraction(float(v)) if kind == 'f' else Fraction(int(v))).replace('/', 'd')
+    # the storage type of an attribute is part of its value: float32 / float64, and the narrow integer types
+    # (python ints come back as int32 or int64 depending on the flavour: compared by value)
+    if a.dtype.kind == 'f':
+        kind = 'f%d' % a.dtype.itemsize
+    else:
+        kind = ('%s%d' % (a.dtype.kind, a.dtype.itemsize)) if a.dtype.itemsize < 4 else 'i'
+    return kind + '.' + '_'.join(lib.show_rat(Fraction(float(v)) if kind[0] == 'f' else Fraction(int(v))).replace('/', 'd')
                                  for v in np.atleast_1d(a).tolist())
 
 
